@@ -454,7 +454,11 @@ func trunc(b []byte, n int) []byte {
 // evalFS: the public API on a file-system directory.  Runs in a child process (a loader bug
 // here can take the process down).
 func evalFS(c RejectCase, snaps map[uint64][]byte, checkOutcome func(site string, opened bool, openErr string, epoch uint64, state []SegState) *vlib.Failure) *vlib.Failure {
-	dir, err := os.MkdirTemp(scratchRoot(), "c12-fs-")
+	root := os.Getenv("C12_FSROOT")
+	if root == "" {
+		root = scratchRoot()
+	}
+	dir, err := os.MkdirTemp(root, "c12-fs-")
 	if err != nil {
 		return vlib.Failf("harness-infra", "mkdir: %v", err)
 	}
